@@ -38,7 +38,8 @@ EXTENDS Integers, Sequences, FiniteSets, TLC, Json
 CONSTANTS MaxSegs, Seps, Shape, Emit     \* Seps: the separators used, a subset of AllSeps
 
 Code == {"kwU", "kwL", "kwM", "ident", "num", "comma", "star", "eq", "lparen", "rparen"}
-Protected == {"strKw", "strMulti", "strMultiCrlf", "strEsc", "strBs", "qidKw", "btKw", "cmtLine", "cmtPlain", "cmtBlockOne", "cmtBlock", "dollarMulti"}
+Protected == {"strKw", "strMulti", "strMultiCrlf", "strEsc", "strBs", "qidKw", "btKw", "cmtLine", "cmtPlain", "cmtBlockOne", "cmtBlock", "dollarMulti",
+              "cmtBsq", "dollarBsq"}     \* a backslash before a quote OUTSIDE a string literal (comment, dollar-quoted body): nothing special
 MultiLine == {"strMulti", "strMultiCrlf", "cmtBlock", "dollarMulti"}      \* strMultiCrlf: the same with CR-LF line ends inside
 Segs == Code \cup Protected
 AllSeps == {"sp", "sp2", "tab", "nl", "nlIndent", "nlTab", "nlMixed", "blank3", "trail", "crlf",
